@@ -1,0 +1,53 @@
+//go:build verif
+
+package composite
+
+// Contracts for govc (see /verif/DESIGN.md).  Comment-only file.
+
+//@ import internal github.com/AdguardTeam/AdGuardDNS/internal/filter/internal
+//@ import rulelist github.com/AdguardTeam/AdGuardDNS/internal/filter/internal/rulelist
+//@ import urlfilter github.com/AdguardTeam/urlfilter
+//@ import rules github.com/AdguardTeam/urlfilter/rules
+
+//@ immutable Filter.*
+
+// ---------------------------------------------------------------------------
+// C02: the order of the verdict on a request.
+//
+// The request filters consulted by this call, in order, with what they said.
+//@ ghost rfCalls int
+//@ ghost rfAt map[int]internal.RequestFilter
+//@ ghost rfRes map[int]internal.Result
+//@ ghost rfErr map[int]bool
+//@ interface internal.RequestFilter method FilterRequest
+//@   modifies rfCalls, rfAt[rfCalls], rfRes[rfCalls], rfErr[rfCalls]
+//@   ensures rfCalls == old(rfCalls) + 1 && rfAt[old(rfCalls)] == this && rfRes[old(rfCalls)] == r && rfErr[old(rfCalls)] == (err != nil)
+// The verdict of the rule lists (custom rules, shared lists, blocked services)
+// for this request.
+//@ ghost lastRL internal.Result
+//@ func (*Filter).filterReqWithRuleLists
+//@   modifies heap, lastRL
+//@   preserves allelems(internal.RequestFilter)
+//@   ensures lastRL == r
+//@   ensures r == nil || isptr(r, internal.ResultAllowed) || isptr(r, internal.ResultBlocked) || isptr(r, internal.ResultModifiedRequest) || isptr(r, internal.ResultModifiedResponse)
+//@   ensures isptr(r, internal.ResultAllowed) ==> asptr(r, internal.ResultAllowed) != nil
+
+//@ pred custAllow(r internal.Result) = isptr(r, internal.ResultAllowed) && asptr(r, internal.ResultAllowed).List == "custom"
+//@ pred decisive(r internal.Result) = isptr(r, internal.ResultBlocked) || isptr(r, internal.ResultModifiedRequest) || isptr(r, internal.ResultModifiedResponse)
+
+//@ func (*Filter).FilterRequest
+//@   property C02
+//@   requires f != nil && req != nil && (forall i int :: 0 <= i && i < len(f.reqFilters) ==> ref(f.reqFilters[i]) != 0)
+//@   modifies heap, lastRL, rfCalls, rfAt, rfRes, rfErr
+//@   ensures own-allow-rule-ends-filtering: custAllow(lastRL) ==> r == lastRL && err == nil && rfCalls == old(rfCalls)
+//@   ensures block-or-rewrite-by-a-rule-wins: decisive(lastRL) ==> r == lastRL && err == nil && rfCalls == old(rfCalls)
+//@   ensures safety-filters-in-their-order: !custAllow(lastRL) && !decisive(lastRL) ==>
+//@             rfCalls - old(rfCalls) <= len(f.reqFilters) &&
+//@             (forall k int :: old(rfCalls) <= k && k < rfCalls ==> rfAt[k] == f.reqFilters[k - old(rfCalls)]) &&
+//@             (forall k int :: old(rfCalls) <= k && k < rfCalls - 1 ==> rfRes[k] == nil && !rfErr[k])
+//@   ensures first-safety-verdict-wins: !custAllow(lastRL) && !decisive(lastRL) && rfCalls > old(rfCalls) && (rfErr[rfCalls - 1] || rfRes[rfCalls - 1] != nil) ==>
+//@             (rfErr[rfCalls - 1] ? r == nil && err != nil : r == rfRes[rfCalls - 1] && err == nil)
+//@   ensures otherwise-the-rule-verdict: !custAllow(lastRL) && !decisive(lastRL) && (rfCalls == old(rfCalls) || (!rfErr[rfCalls - 1] && rfRes[rfCalls - 1] == nil)) ==>
+//@             r == lastRL && err == nil && rfCalls == old(rfCalls) + len(f.reqFilters)
+//@   loop 1 invariant -1 <= #i && #i < len(f.reqFilters) && rfCalls == old(rfCalls) + #i + 1 && lastRL == rlRes
+//@   loop 1 invariant forall k int :: old(rfCalls) <= k && k < rfCalls ==> rfAt[k] == f.reqFilters[k - old(rfCalls)] && rfRes[k] == nil && !rfErr[k]
